@@ -2,11 +2,15 @@
 (* The handler-level reading of C16 by itself, as a judge of a recorded handler history (same log
    format as Trace_StaticCache.tla), independent of how the cache evicts: files change only between
    requests, and every response must be
-     - 301 / 404 for a target that resolves to a directory without slash / to nothing, 200 otherwise;
-     - for 200: exactly (length, bytes, MIME type) of some content the file of that target has had, and
-       that content was still the file's content at some moment not earlier than TimeLimit seconds
-       before the call started (nothing older than the time limit is ever served), and had already been
-       written when the call ended.
+     - for a target that resolves to a file: 200 with exactly (length, bytes) of some content that file
+       has had, which was still the file's content at some moment not earlier than TimeLimit seconds
+       before the call started (nothing older than the time limit is ever served) and had already been
+       written when the call ended; the Content-Type is the same in every 200 answer for the same
+       (uri, host) - whether it comes from the cache or from the file (WHICH type an extension maps to is
+       not this property's business, so the harness' own table is not consulted here);
+     - for a target that resolves to nothing / to a directory named without its slash: anything but a
+       200 (a 200 there can only be another path's cached body; whether the answer is 301, 404 or
+       another status is not this property's business).
    Deterministic replay; offending records are collected and printed.  Used to re-examine a log that
    StaticCache.tla (the model of this implementation) cannot explain. *)
 EXTENDS Integers, Sequences, TLC, Json, IOUtils
@@ -17,19 +21,22 @@ TimeLimit == Rec[1].tl
 Files   == LET R == Rec IN { R[i].file : i \in { j \in 1..Len(R) : R[j].ev = "write" } }
 Threads == LET R == Rec IN { R[i].thr : i \in 1..Len(R) }
 
-VARIABLES l, fhist, cur, bad
-vars == <<l, fhist, cur, bad>>
+UKeys   == LET R == Rec IN { <<R[i].uri, R[i].host>> : i \in 1..Len(R) }
+
+VARIABLES l, fhist, cur, kmime, bad
+vars == <<l, fhist, cur, kmime, bad>>
 
 NoCur == [file |-> "-", lo |-> 0, hi |-> 0, open |-> FALSE]
-Init == l = 1 /\ fhist = [f \in Files |-> <<>>] /\ cur = [t \in Threads |-> NoCur] /\ bad = <<>>
+Init == /\ l = 1 /\ fhist = [f \in Files |-> <<>>] /\ cur = [t \in Threads |-> NoCur] /\ bad = <<>>
+        /\ kmime = [k \in UKeys |-> ""]
 
 Good(e, c) ==
-  IF c.file = "-" THEN e.status = 404
-  ELSE IF c.file = "/" THEN e.status = 301
+  IF c.file \in {"-", "/"} THEN e.status # 200
   ELSE /\ e.status = 200
+       /\ kmime[<<e.uri, e.host>>] \in {"", e.mime}
        /\ LET H == fhist[c.file]
           IN  \E i \in 1..Len(H) :
-                 /\ H[i].size = e.size /\ H[i].id = e.hash /\ H[i].mime = e.mime
+                 /\ H[i].size = e.size /\ H[i].id = e.hash
                  /\ H[i].from <= c.hi
                  /\ (i = Len(H) \/ H[i + 1].from >= c.lo - TimeLimit)
 
@@ -38,15 +45,18 @@ Next ==
   /\ l' = l + 1
   /\ LET e == Rec[l]
      IN  IF e.ev = "reset"
-         THEN fhist' = [f \in Files |-> <<>>] /\ cur' = [t \in Threads |-> NoCur] /\ bad' = bad
+         THEN /\ fhist' = [f \in Files |-> <<>>] /\ cur' = [t \in Threads |-> NoCur] /\ bad' = bad
+              /\ kmime' = [k \in UKeys |-> ""]
          ELSE IF e.ev = "write"
          THEN /\ fhist' = [fhist EXCEPT ![e.file] = Append(@, [size |-> e.size, id |-> e.hash, mime |-> e.mime, from |-> e.lo])]
-              /\ UNCHANGED <<cur, bad>>
+              /\ UNCHANGED <<cur, bad, kmime>>
          ELSE IF e.ev = "start"
          THEN /\ cur' = [cur EXCEPT ![e.thr] = [file |-> e.file, lo |-> e.lo, hi |-> e.hi, open |-> TRUE]]
-              /\ UNCHANGED <<fhist, bad>>
+              /\ UNCHANGED <<fhist, bad, kmime>>
          ELSE /\ cur' = [cur EXCEPT ![e.thr].open = FALSE]
               /\ bad' = IF (cur[e.thr].open /\ Good(e, cur[e.thr])) \/ Len(bad) >= 20 THEN bad ELSE Append(bad, l)
+              /\ kmime' = IF e.status = 200 /\ kmime[<<e.uri, e.host>>] = ""
+                          THEN [kmime EXCEPT ![<<e.uri, e.host>>] = e.mime] ELSE kmime
               /\ UNCHANGED fhist
 Spec == Init /\ [][Next]_vars
 
